@@ -176,6 +176,61 @@ def h_canonical(d: Decl, props):
     return Harness(d, 'canonical', props, body, clause='forall obtainable v: try_new(v.into_inner()) == Ok(v)')
 
 
+def h_canonical_via(d: Decl, props, entry):
+    """C11 for values obtained through another safe entry point: v := entry(raw) (when it succeeds);
+    then try_new(v.into_inner()) == Ok(v)."""
+    S = concrete_self(d)
+    I = concrete_inner(d)
+    attrs = ''
+    if entry == 'TryFrom':
+        get = '        let got = <%s as ::core::convert::TryFrom<%s>>::try_from(raw).ok();\n' % (S, I)
+    elif entry == 'FromStr':
+        t = d.inner
+        attrs = '#[kani::stub(<%s as ::core::str::FromStr>::from_str, stub_parse_%s)]\n    ' % (t, t)
+        get = ('        unsafe { P_OK = true; P_VAL_%s = raw; P_CALLS = 0; }\n' % t.upper() +
+               '        let got = <%s as ::core::str::FromStr>::from_str("?").ok();\n' % S)
+    elif entry == 'Deserialize':
+        get = ('        unsafe { sfmt::EXPECT_NAME = "%s"; }\n' % d.name +
+               '        let got = <%s as serde::Deserialize>::deserialize(sfmt::Fmt { v: raw, ok: true, mode: 0 }).ok();\n' % S)
+    elif entry == 'Default':
+        get = '        let got = Some(<%s as Default>::default());\n' % S
+    else:
+        raise ValueError(entry)
+    body = (sym_setup(d) + anyval(d) + get +
+            '        if let Some(v) = got {\n'
+            '            let i = v.into_inner();\n')
+    if d.has_validation:
+        body += '            let again = %s::try_new(i).map(|w| %s);\n            assert!(again == Ok(%s), "try_new(v.into_inner()) == Ok(v) for v obtained via %s");\n' % (S, bits(d, 'w.into_inner()'), bits(d, 'i'), entry)
+    else:
+        body += '            let again = %s;\n            assert!(again == %s, "new(v.into_inner()) == v for v obtained via %s");\n' % (bits(d, '%s::new(i).into_inner()' % S), bits(d, 'i'), entry)
+    body += '        }\n'
+    return Harness(d, 'canonical via ' + entry, props, body, attrs=attrs,
+                   clause='forall v obtainable through %s: try_new(v.into_inner()) == Ok(v)' % entry)
+
+
+def canonical_decls(tier='quick'):
+    """numeric declarations with an IDEMPOTENT custom sanitizer (san_* = clamp / abs) and every value-creating derive"""
+    out = []
+    types = ['i32', 'u8', 'i64', 'f32', 'f64'] if tier == 'quick' else [t for t in INT_TYPES + FLOAT_TYPES if t not in ('usize', 'isize', 'i128', 'u128')]
+    der = ['Debug', 'TryFrom', 'FromStr', 'Serialize', 'Deserialize']
+    for t in types:
+        fl = t in FLOAT_TYPES
+        fam = 'float' if fl else 'int'
+        bu, n2 = aux.sym_bound('hi', t)
+        s, n5 = aux.custom('san', t)
+        s.idempotent = True
+        vals = [Validator('less_or_equal', bu)]
+        if fl:
+            vals = [Validator('finite')] + vals
+        out.append(mk('can_%s_san_val' % t, fam, t, sanitizers=[Sanitizer('with', s)], validators=vals, aux=[n2, n5], derives=der))
+        out.append(mk('can_%s_san_nov' % t, fam, t, sanitizers=[Sanitizer('with', s)], aux=[n5], derives=der))
+        out.append(mk('can_%s_val' % t, fam, t, validators=vals, aux=[n2], derives=der))
+    for d in out:
+        d.verus = False
+        d.kani = True
+    return out
+
+
 def h_views(d: Decl, props):
     S = concrete_self(d)
     I = concrete_inner(d)
@@ -778,10 +833,18 @@ def harnesses_for(prop, tier, seed):
                 hs.append(h_serialize(d, [prop], concrete=('" ab "', 'ab'), bounded=B))
         decls = decls + sdecls
     elif prop == 'C11':
+        from .kani_serde import serde_items_expanded
         decls = float_decls(tier)
         for d in decls:
             if not d.sanitizers:
                 hs.append(h_canonical(d, [prop]))
+        cd = canonical_decls(tier)
+        extra = serde_items_expanded() + parse_stub_items(sorted({d.inner for d in cd}))
+        for d in cd:
+            hs.append(h_canonical(d, [prop]))
+            for e in ('TryFrom', 'FromStr', 'Deserialize'):
+                hs.append(h_canonical_via(d, [prop], e))
+        decls = decls + cd
     elif prop == 'C12':
         decls = [d for d in float_decls(tier) if 'Ord' in d.derives]
         for d in decls:
